@@ -1,5 +1,5 @@
 """C20 — active_injectors counts the live injectors of the current stream (accounting argument)."""
-from cfg import Inconclusive, op_place, show, walk, strip_casts
+from cfg import Inconclusive, op_place, show, walk, strip_casts, decision_paths, poly_of, Poly
 from common import (calls_to, callee, field_chain, fn_of, get_fn, peel, site, guards_of, field_assigns,
                     ret_aggregates)
 
@@ -53,38 +53,66 @@ def rule_holders(ctx):
         if k["kind"] == "static" and "boxcar::Vec" in (k.get("ty") or ""):
             ctx.violation("%s|static|1" % k["path"], k["path"], "static holds the item stream")
     fn = get_fn(facts, "nucleo", AI)
-    rets = ret_aggregates(fn)
-    if len(rets) != 1:
-        raise Inconclusive("active_injectors: expected one return value")
-    e = fn.expr_of_rvalue(rets[0][2])
-    head, subs = flatten_sub(e)
     key = AI + "|formula|1"
-    okh = head[0] == "call" and str(head[1]).endswith("::strong_count") and field_chain(head[2][0])[1] == ["items"] and field_chain(head[2][0])[0][0] == "arg"
-    if not okh:
-        ctx.violation(key, site(fn, 0), "the count does not start from Arc::strong_count(&self.items) (the CURRENT stream): %s" % show(head))
-        return
-    terms = {"refs": 0, "snapshot": 0, "other": []}
-    for s_ in subs:
-        s2 = strip_casts(s_)
-        if s2[0] == "call" and s2[1] == "State::matcher_item_refs":
-            a = s2[2][0]
-            if field_chain(a)[1] == ["state"]:
-                terms["refs"] += 1
-            else:
-                terms["other"].append(show(s_))
-        elif s2[0] == "call" and str(s2[1]).endswith("::ptr_eq"):
-            x = field_chain(s2[2][0])[1]
-            y = field_chain(s2[2][1])[1]
-            if sorted([x, y]) == sorted([["snapshot", "items"], ["items"]]):
-                terms["snapshot"] += 1
-            else:
-                terms["other"].append(show(s_))
+
+    def is_ptr_eq(x):
+        x = strip_casts(x)
+        if x[0] == "call" and (str(x[1]).endswith("From<bool>>::from") or str(x[1]).endswith("::from")) and len(x[2]) == 1:
+            x = strip_casts(x[2][0])
+        if x[0] == "call" and str(x[1]).endswith("::ptr_eq"):
+            a_ = field_chain(x[2][0])[1]
+            b_ = field_chain(x[2][1])[1]
+            return sorted([a_, b_]) == sorted([["snapshot", "items"], ["items"]])
+        return False
+
+    def atomizer(x):
+        x0 = x
+        x = strip_casts(x)
+        if x[0] == "call" and str(x[1]).endswith("::strong_count"):
+            fc = field_chain(x[2][0])
+            if fc[1] == ["items"] and fc[0][0] == "arg":
+                return "STRONG(self.items)"
+            return "?strong_count(%s)" % show(x[2][0])[:40]
+        if x[0] == "call" and x[1] == "State::matcher_item_refs":
+            if field_chain(x[2][0])[1] == ["state"]:
+                return "REFS(self.state)"
+        if is_ptr_eq(x0):
+            return "PEQ"
+        return None
+
+    # per return path (whatever the statement shapes: `as usize`, usize::from, if/else 1/0, named locals):
+    # value = strong_count(self.items) − matcher_item_refs(self.state) − [snapshot.items is self.items]
+    paths = decision_paths(fn)
+    want_base = Poly.atom("STRONG(self.items)") - Poly.atom("REFS(self.state)")
+    n = 0
+    for conds, res in paths:
+        if res is None:
+            raise Inconclusive("active_injectors: return path without a value")
+        got = poly_of(res, atomizer)
+        peq = None
+        for d, chosen, allv in conds:
+            dd = strip_casts(d)
+            neg = False
+            while dd[0] == "un" and dd[1] == "Not":
+                dd = strip_casts(dd[2])
+                neg = not neg
+            if is_ptr_eq(dd):
+                truth = (chosen != 0) if chosen is not None else True
+                peq = truth != neg
+        n += 1
+        if peq is None:
+            want = want_base - Poly.atom("PEQ")
         else:
-            terms["other"].append(show(s_))
-    if terms["refs"] == 1 and terms["snapshot"] == 1 and not terms["other"]:
-        ctx.ok(site(fn, 0), "strong_count(self.items) − matcher_item_refs(state) [Nucleo + Worker] − ptr_eq(snapshot.items, self.items) [Snapshot]")
+            want = want_base - Poly.const(1 if peq else 0)
+        if got == want:
+            continue
+        if "STRONG(self.items)" not in got.atoms():
+            ctx.violation(key, site(fn, 0), "the count does not start from Arc::strong_count(&self.items) (the CURRENT stream): %s" % got)
+        else:
+            ctx.violation(key, site(fn, 0), "subtracted terms do not match the three non-injector holders: the count is %s, the holders give %s" % (got, want))
+        break
     else:
-        ctx.violation(key, site(fn, 0), "subtracted terms do not match the three non-injector holders: refs×%d snapshot×%d other=%s" % (terms["refs"], terms["snapshot"], terms["other"]))
+        ctx.ok(site(fn, 0), "strong_count(self.items) − matcher_item_refs(state) [Nucleo + Worker] − ptr_eq(snapshot.items, self.items) [Snapshot] on all %d return paths" % n)
 
 
 def rule_refs_table(ctx):
